@@ -234,7 +234,7 @@ func runC10(c *Ctx) error {
 		return err
 	}
 	defer m.Close()
-	c.Rep.Rule = "random tables (0-8 rows, nullable pointer column, small value domains so that filters overlap) x sets of 1-5 filters over different column sets (id / b / a / a+b / s / b+s / empty), equal filters repeated, values carried as int64, int, *int64, a named integer type, string, *string, nil and typed nil pointers; every filter is queried on its own and then all of them concurrently under batch.WithBatching on the same fake database; rows per call compared (the property), and compared with the Lean model's alone / dispatched"
+	c.Rep.Rule = "random tables (0-8 rows, nullable pointer column, small value domains so that filters overlap) x sets of 1-5 filters (every 40th case 90-270) over different column sets (id / b / a / a+b / s / b+s / empty), equal filters repeated, values carried as int64, int, *int64, a named integer type, string, *string, nil and typed nil pointers; every filter is queried on its own and then all of them concurrently under batch.WithBatching on the same fake database; rows per call compared (the property), and compared with the Lean model's alone / dispatched"
 	c.Rep.Assumptions = append(c.Rep.Assumptions,
 		"string comparison is case-sensitive in the fake database and in sqlgen's row tester (MySQL collations are not modelled)",
 		"whether concurrent calls end up in one batch is up to the batch timer; the number of statements is recorded")
@@ -263,7 +263,12 @@ func runC10(c *Ctx) error {
 		for id := int64(1); id <= int64(r.Intn(9)); id++ {
 			cs.Table = append(cs.Table, []int64{id, int64(r.Intn(4)) - 1, int64(r.Intn(3)), int64(r.Intn(3))})
 		}
-		for k := 1 + r.Intn(5); k > 0; k-- {
+		k := 1 + r.Intn(5)
+		if i%40 == 7 {
+			k = 90 + r.Intn(180) // a large batch: more queries than any internal chunk or size limit one might pick
+			c.Rep.Count("large_batch")
+		}
+		for ; k > 0; k-- {
 			if len(cs.Filters) > 0 && r.Chance(0.15) {
 				cs.Filters = append(cs.Filters, cs.Filters[r.Intn(len(cs.Filters))])
 			} else {
